@@ -41,6 +41,45 @@ CONV_WRAPS = ["%s", "{ var q = 1; %s; pr(q) }", "for (var i = 0; i < 3; ++i) { %
               "{ var a = 1; { var b = 2; %s } }; pr(1)"]
 
 
+# constructs outside the model (dynamic objects, attribute-held functions called with method syntax (This_Foist), classes, maps / vectors of functions,
+# bind, ranged-for, switch, ternary, prelude algorithms with callbacks): the same model-independent oracles
+OBJ_BODIES = ["var x%d = Dynamic_Object(); x%d.cb = fun(a) { cb1(a) }; x%d.cb(2)",
+              "var x%d = Dynamic_Object(); x%d.cb = fun(a, b) { cb1(a); cb2(b) }; x%d.cb(mk_src(2), 3)",
+              "var x%d = Dynamic_Object(); x%d.f = fun(a) { a + 1 }; pr(x%d.f(cb1(2)))",
+              "class C%d { var v; def C%d() { this.v = fun(a) { cb1(a) } } }; var x%d = C%d(); x%d.v(3)",
+              "class C%d { def C%d() {} def m(a) { cb1(a) } }; var x%d = C%d(); x%d.m(2); x%d.m(cb2(3))",
+              "class C%d { var n; def C%d() { this.n = 0 } def inc() { this.n = this.n + cb1(1); this.n } }; var x%d = C%d(); x%d.inc(); x%d.inc()",
+              "var x%d = [\"a\": fun(a) { cb1(a) }]; x%d[\"a\"](1)",
+              "var x%d = [fun(a) { cb1(a) }, fun(a) { cb2(a) }]; x%d[0](1); x%d[1](2)",
+              "var x%d = bind(fun(a, b) { cb1(a + b) }, 1, _); x%d(2)",
+              "for (e : [1, 2, 3]) { cb1(e) }",
+              "for (e : [1, 2, 3]) { if (e == 2) { continue }; cb1(e); if (e == 3) { break } }",
+              "switch (cb1(1)) { case (1) { cb2(1); break } default { cb3(1) } }",
+              "switch (2) { case (1) { cb1(1) } case (2) { cb2(2) } case (3) { cb3(3); break } }",
+              "pr(cb1(1) == 1 ? cb2(2) : cb3(3))",
+              "for_each([1, 2, 3], fun(a) { cb1(a) })",
+              "pr(map([1, 2], fun(a) { cb1(a) }))",
+              "pr(foldl([1, 2, 3], fun(a, b) { cb1(a + b) }, 0))",
+              "var x%d = \"ab\"; x%d.for_each(fun(c) { cb1(1) })",
+              "pr(to_string(cb1(4)).size())",
+              "var x%d = [1, 2]; x%d.push_back(cb1(3)); pr(x%d.size())",
+              "pr(eval(\"cb1(1) + 1\"))",
+              "def g%d(a) : a > cb1(0) { cb2(a) }; def g%d(a) { cb3(a) }; g%d(1); g%d(-1)"]
+
+
+def obj_scripts(rng, n):
+    out, k = [], 300
+    for _ in range(n):
+        w = rng.choice(CONV_WRAPS)
+        parts = []
+        for _ in range(w.count("%s")):
+            b = rng.choice(OBJ_BODIES)
+            k += 1
+            parts.append(b.replace("%d", str(k)))
+        out.append(w % tuple(parts))
+    return out
+
+
 def conv_scripts(rng, n):
     out, k = [], 100
     for _ in range(n):
@@ -124,7 +163,7 @@ def run(ctx):
     ctx.cov["programs"] = len(sx)
     ctx.cov["fault_runs"] = len(cases) - len(sx)
     # conversions: not modelled; the same oracles, with faults at the first callback invocations
-    conv = conv_scripts(rng, 400 if thorough else 60)
+    conv = conv_scripts(rng, 400 if thorough else 60) + obj_scripts(rng, 800 if thorough else 120)
     ccases, cmeta = [], []
     for t in conv:
         for k, kind in [(1000000, "std")] + [(k, kind) for k in (0, 1) for kind in ("runtime", "boxed", "eval")]:
